@@ -66,8 +66,13 @@ class Extractor:
                 return "len(%s)" % v
         return None
 
-    def const_of(self, e):
+    def const_of(self, e, st=None):
+        env = {}
+        if st is not None:
+            env = {k[1:]: v for k, v in st.items() if isinstance(k, str) and k.startswith("$")}
         try:
+            if env:
+                return Ev(self.repo, self.ci.mod, env=env, self_cls=self.ci).ev(e)
             return self.ev.ev(e)
         except (Unknown, Raised):
             raise AnalysisError("validate: expression outside the vocabulary: %s" % canon(e))
@@ -157,15 +162,15 @@ class Extractor:
                     out += self._cmp_const(s, va, op, m.attrs[b.attr], pol, test)
             return out
         if va is not None and vb is None:
-            return self._cmp_const(st, va, op, self.const_of(b), pol, test)
+            return self._cmp_const(st, va, op, self.const_of(b, st), pol, test)
         if vb is not None and va is None:
             flip = {ast.Lt: ast.Gt, ast.Gt: ast.Lt, ast.LtE: ast.GtE, ast.GtE: ast.LtE}
             nop = flip.get(type(op))
             if nop is None and isinstance(op, (ast.Eq, ast.NotEq, ast.Is, ast.IsNot)):
-                return self._cmp_const(st, vb, op, self.const_of(a), pol, test)
+                return self._cmp_const(st, vb, op, self.const_of(a, st), pol, test)
             if nop is None:
                 raise AnalysisError("validate: comparison unclassifiable: %s" % canon(test))
-            return self._cmp_const(st, vb, nop(), self.const_of(a), pol, test)
+            return self._cmp_const(st, vb, nop(), self.const_of(a, st), pol, test)
         raise AnalysisError("validate: comparison outside the vocabulary: %s" % canon(test))
 
     def _cmp_const(self, st, var, op, c, pol, node):
@@ -283,6 +288,16 @@ class Extractor:
                 raise AnalysisError("validate: returns a value: %s" % canon(st))
             self._ret[-1].extend(states)
             return []
+        if isinstance(st, ast.Assign) and len(st.targets) == 1 and isinstance(st.targets[0], ast.Name) \
+                and self.var_of(st.value) is None:
+            # local holding a folded constant (e.g. `allowed = range(0, 4)`), path-sensitive
+            out = []
+            for s in states:
+                v = self.const_of(st.value, s)
+                s2 = dict(s)
+                s2["$" + st.targets[0].id] = v
+                out.append(s2)
+            return out
         if isinstance(st, ast.Expr) and isinstance(st.value, ast.Call):
             call = st.value
             tgt = self.resolve_call(call, owner)
@@ -309,7 +324,8 @@ class Extractor:
         if m is None:
             raise AnalysisError("no %s in %s" % (meth_name, self.ci.name))
         self._ret = []
-        self.accepted = self.call(m, c, [self.tops()], 0)
+        acc = self.call(m, c, [self.tops()], 0)
+        self.accepted = [{k: v for k, v in s.items() if not (isinstance(k, str) and k.startswith("$"))} for s in acc]
         return self.accepted
 
     def resolve_call(self, call, owner):
